@@ -560,7 +560,17 @@ func runC13(c *Ctx) {
 					found = true
 				}
 			}
-			okDef = found && defers[0].Block() == bp.Blocks[0]
+			// registered before any way out: the defer statement dominates
+			// every return
+			okDef = found
+			for _, r := range find(bp, isExit) {
+				if _, isRet := r.(*ssa.Return); !isRet || r.Block() == bp.Recover {
+					continue
+				}
+				if r.Block() != defers[0].Block() && !defers[0].Block().Dominates(r.Block()) {
+					okDef = false
+				}
+			}
 		}
 		c.verdict(okDef, c.nm(bp)+" | deferred disconnect registered on entry", c.P.Pos(bp.Pos()), "defer in the entry block reaches Peer.Disconnect", "BanPeer no longer disconnects the peer on every exit", c.ats(defers)...)
 		// the ban is written for the address given, with the reason given
